@@ -798,6 +798,35 @@ func (p *pkgCtx) singletons() {
 			}
 		}
 	}
+	// "exactly one instance" has to hold at run time, not only among the package-level
+	// variables: a type that is created anywhere else (a second composite literal, a constructor
+	// that is exported or called twice) has other instances, and attributing their fields to
+	// the one variable would invent races between objects that share nothing
+	lits, ctorCalls, exportedCtor := map[string]int{}, map[string]int{}, map[string]bool{}
+	for fn, tn := range results {
+		if ast.IsExported(fn) {
+			exportedCtor[tn] = true
+		}
+	}
+	for _, fc := range p.files {
+		ast.Inspect(fc.f, func(n ast.Node) bool {
+			switch x := n.(type) {
+			case *ast.CompositeLit:
+				if x.Type != nil {
+					lits[typeName(x.Type)]++
+				}
+			case *ast.CallExpr:
+				if id, ok := x.Fun.(*ast.Ident); ok {
+					if id.Name == "new" && len(x.Args) == 1 {
+						lits[typeName(x.Args[0])]++
+					} else if tn, ok := results[id.Name]; ok {
+						ctorCalls[tn]++
+					}
+				}
+			}
+			return true
+		})
+	}
 	for _, fc := range p.files {
 		for _, d := range fc.f.Decls {
 			fd, ok := d.(*ast.FuncDecl)
@@ -805,7 +834,7 @@ func (p *pkgCtx) singletons() {
 				continue
 			}
 			tn := typeName(fd.Recv.List[0].Type)
-			if vs := inst[tn]; len(vs) == 1 {
+			if vs := inst[tn]; len(vs) == 1 && lits[tn] <= 1 && ctorCalls[tn] <= 1 && !exportedCtor[tn] {
 				p.alias[fd.Recv.List[0]] = vs[0]
 			}
 		}
